@@ -265,6 +265,42 @@ func runC04(c *Ctx) {
 				a.stream.Close()
 				a.stream = nil
 			}
+		case "delete-race":
+			// two DELETEs of the own live session at once: in any order one ends the session, the other
+			// finds it gone
+			if !stateful || class != "live" {
+				return
+			}
+			var st [2]int
+			var ts []*sim.Task
+			for k := 0; k < 2; k++ {
+				ts = append(ts, s.Go(fmt.Sprintf("%s/del%d-%s", a.name, k, c.Nonce("")), func() {
+					if r := rawDo(c, ctx, "DELETE", url, withSession(nil, id), nil); r.Err == nil {
+						st[k] = r.Status
+					}
+				}))
+			}
+			s.WaitTasks(5*time.Minute, ts...)
+			ok200 := 0
+			for _, x := range st {
+				if x == 200 {
+					ok200++
+				} else if x != 404 {
+					s.Violate(fmt.Sprintf("C04|status|%s|delete-race|got=%d", mode, x), "one of two concurrent DELETEs of a live session answered %d (want 200 or 404)", x)
+				}
+			}
+			if ok200 != 1 {
+				s.Violate(fmt.Sprintf("C04|double-delete|%s|n200=%d", mode, ok200), "two concurrent DELETEs of one live session: %d of them answered 200 (statuses %v); a DELETE bearing an already deleted id must get 404", ok200, st)
+			}
+			delete(live, id)
+			a.sid = ""
+			if a.stream != nil {
+				a.stream.Close()
+				a.stream = nil
+			}
+			c.mu.Lock()
+			deleted = append(deleted, id)
+			c.mu.Unlock()
 		case "delete":
 			r := rawDo(c, ctx, "DELETE", url, withSession(nil, id), nil)
 			if !stateful {
@@ -296,7 +332,7 @@ func runC04(c *Ctx) {
 
 	nActors := 1 + t.Draw(4)
 	sequential := nActors == 1
-	opsAll := []string{"initialize", "request", "request", "notification", "response-post", "get", "stream-close", "delete"}
+	opsAll := []string{"initialize", "request", "request", "notification", "response-post", "get", "stream-close", "delete", "delete-race"}
 	classes := []string{"none", "live", "live", "live", "deleted", "never", "foreign"}
 	var tasks []*sim.Task
 	var plan [][]string
